@@ -494,3 +494,124 @@ Proof.
     + exists (Panic code). repeat split; auto. intros g' H; discriminate H.
     + exists Diverge. repeat split; auto. intros g' H; discriminate H.
 Qed.
+
+(* ---- the print driver over the regenerated writer ---- *)
+
+Definition pr_inv (g : gwriter) : Prop := gw_inv g /\ g_lst g <> PartialIndent.
+
+Lemma pr_inv_new : pr_inv (mkGW [] BeforeIndent [] 0).
+Proof. split; [exact gw_inv_new|discriminate]. Qed.
+
+Lemma pr_inv_open_item g b : pr_inv (g_IndentWriter_open_item g b).
+Proof.
+  split; [intro H; rewrite open_item_lst in H; discriminate|].
+  rewrite open_item_lst. discriminate.
+Qed.
+
+Lemma pr_inv_close_item g : pr_inv g -> pr_inv (fst (g_IndentWriter_close_item g)).
+Proof.
+  intros [H1 H2]. split; [apply gw_inv_close_item; assumption|].
+  rewrite close_item_lst. exact H2.
+Qed.
+
+Lemma src_write_str_pr dbg g s a : pr_inv g ->
+  exists r, g_IndentWriter_write_str dbg g s a = (a, r) /\
+            map_res absw r = write_str dbg s (absw g) /\
+            (forall g', r = Ok g' -> pr_inv g').
+Proof.
+  intros [H1 H2]. unfold g_IndentWriter_write_str, write_str.
+  destruct (src_write_str_loop_inv dbg (S (length s)) s g a) as [r [R1 [R2 R3]]]; [lia|exact H1|].
+  exists r. split; [exact R1|]. split; [exact R2|]. intros g' Hr.
+  destruct (R3 g' Hr) as [Q1 Q2]. split; [exact Q1|]. apply Q2. left. exact H2.
+Qed.
+
+Lemma src_write_chunks_pr dbg chunks : forall g a, pr_inv g ->
+  exists r, g_write_chunks dbg chunks g a = (a, r) /\
+            map_res absw r = write_chunks dbg chunks (absw g) /\
+            (forall g', r = Ok g' -> pr_inv g').
+Proof.
+  induction chunks as [|c t IH]; intros g a Hinv.
+  - exists (Ok g). split; [reflexivity|]. split; [reflexivity|]. intros g' [= <-]. exact Hinv.
+  - destruct (src_write_str_pr dbg g c a Hinv) as [r [Hr [Habs Hpost]]].
+    cbn [g_write_chunks write_chunks]. unfold bind. rewrite Hr.
+    destruct r as [g1|code|]; cbn [map_res] in Habs; rewrite <- Habs.
+    + apply IH. apply Hpost. reflexivity.
+    + exists (Panic code). split; [reflexivity|]. split; [reflexivity|]. discriminate.
+    + exists Diverge. split; [reflexivity|]. split; [reflexivity|]. discriminate.
+Qed.
+
+(* the driver of debug_pretty_print.rs over the regenerated IndentWriter *)
+Fixpoint g_print_loop (dbg : bool) (rend : rendering) (mode : nat) (fuel : nat) (root : nid)
+         (cur : option edge) (g : gwriter) : M gwriter :=
+  match fuel with
+  | O => diverge
+  | S f =>
+      r <- lift (trav_step root cur) ;;
+      match r with
+      | (None, _) => ret g
+      | (Some (End_ _), cur') =>
+          let '(g', ok) := g_IndentWriter_close_item g in
+          if ok then g_print_loop dbg rend mode f root cur' g' else ret g
+      | (Some (Start id), cur') =>
+          n <- rdi id ;;
+          let g1 := g_IndentWriter_open_item g (negb (is_some (next n))) in
+          v <- lift (payload_of id) ;;
+          g2 <- g_write_chunks dbg (rend v mode) g1 ;;
+          g_print_loop dbg rend mode f root cur' g2
+      end
+  end.
+
+Definition g_pretty_print (dbg : bool) (rend : rendering) (mode : nat) (x : nid) : M (list N) :=
+  a <- get_arena ;;
+  r <- lift (trav_step x (Some (Start x))) ;;
+  v <- lift (payload_of x) ;;
+  g1 <- g_write_chunks dbg (rend v mode) (mkGW [] BeforeIndent [] 0) ;;
+  g <- g_print_loop dbg rend mode (trav_fuel a) x (snd r) g1 ;;
+  ret (g_out g).
+
+Lemma src_print_loop dbg rend mode fuel : forall root cur g a, pr_inv g ->
+  exists r, g_print_loop dbg rend mode fuel root cur g a = (a, r) /\
+            map_res absw r = print_loop dbg rend mode fuel root cur (absw g) a.
+Proof.
+  induction fuel as [|f IH]; intros root cur g a Hg.
+  - exists Diverge. split; reflexivity.
+  - cbn [g_print_loop print_loop]. unfold bind at 1. unfold rbind at 1. unfold lift at 1.
+    destruct (trav_step root cur a) as [[o cur']|c|];
+      [|exists (Panic c); split; reflexivity|exists Diverge; split; reflexivity].
+    destruct o as [[id|id]|].
+    + unfold bind at 1. unfold rbind at 1. unfold rdi, rd, rrdi, rrd.
+      destruct (nth_error (nodes a) (idx id)) as [n|]; [|exists (Panic P_INDEX); split; reflexivity].
+      unfold bind at 1. unfold rbind at 1. unfold lift at 1.
+      destruct (payload_of id a) as [v|c|];
+        [|exists (Panic c); split; reflexivity|exists Diverge; split; reflexivity].
+      unfold bind at 1. unfold rbind at 1. unfold liftw.
+      destruct (src_write_chunks_pr dbg (rend v mode) (g_IndentWriter_open_item g (negb (is_some (next n)))) a
+                  (pr_inv_open_item g _)) as [r [Hr [Habs Hpost]]].
+      rewrite Hr. rewrite <- src_open_item, <- Habs.
+      destruct r as [g2|c|]; cbn [map_res];
+        [|exists (Panic c); split; reflexivity|exists Diverge; split; reflexivity].
+      apply IH. apply Hpost. reflexivity.
+    + rewrite src_close_item. pose proof (pr_inv_close_item g Hg) as Hc.
+      destruct (g_IndentWriter_close_item g) as [g' ok]. cbn [fst] in Hc.
+      destruct ok; [apply IH; exact Hc|]. exists (Ok g). split; reflexivity.
+    + exists (Ok g). split; reflexivity.
+Qed.
+
+Theorem src_pretty_print dbg rend mode x a :
+  g_pretty_print dbg rend mode x a = (a, pretty_print dbg rend mode x a).
+Proof.
+  unfold g_pretty_print, pretty_print.
+  unfold bind at 1. unfold get_arena. unfold bind at 1. unfold rbind at 1. unfold lift at 1.
+  destruct (trav_step x (Some (Start x)) a) as [[o cur']|c|]; [|reflexivity..].
+  unfold bind at 1. unfold rbind at 1. unfold lift at 1.
+  destruct (payload_of x a) as [v|c|]; [|reflexivity..].
+  unfold bind at 1. unfold rbind at 1. unfold liftw.
+  destruct (src_write_chunks_pr dbg (rend v mode) (mkGW [] BeforeIndent [] 0) a pr_inv_new)
+    as [r [Hr [Habs Hpost]]].
+  rewrite Hr. change writer_new with (absw (mkGW [] BeforeIndent [] 0)). rewrite <- Habs.
+  destruct r as [g1|c|]; cbn [map_res]; [|reflexivity..].
+  unfold bind at 1. unfold rbind at 1. cbn [snd].
+  destruct (src_print_loop dbg rend mode (trav_fuel a) x cur' g1 a (Hpost g1 eq_refl)) as [r [Hr2 Habs2]].
+  rewrite Hr2, <- Habs2.
+  destruct r as [g2|c|]; reflexivity.
+Qed.
